@@ -10,7 +10,8 @@
 (*   ev   the effects in the order they happened, [a, t, j, w, r] with     *)
 (*        r = "ok" | "fail" | "soft" | "kill" (process killed AT the       *)
 (*        effect: before or after it, the model may choose),               *)
-(*   end  the directory / tensor state observed by the parent afterwards.  *)
+(*   end  the directory / tensor state observed by the parent afterwards,  *)
+(*   died the process died inside the save without a "kill" event.         *)
 (* The model is stepped along ev; effects not in vis and control steps are *)
 (* taken silently.  A trace is accepted when all events are consumed, the  *)
 (* model has terminated and its observation equals `end`.                  *)
@@ -55,6 +56,9 @@ StepEvent ==
        \/ e.r = "kill" /\ Crash /\ l' = l + 1 /\ UNCHANGED <<tid, pend, acc>>
        \/ e.r = "kill" /\ EvAct(e, "ok") /\ pend' = TRUE /\ UNCHANGED <<tid, l, acc>>
 
+(* the process died inside the save at a point the log does not name *)
+StepDied == T.died /\ l = Len(T.ev) + 1 /\ ~pend /\ out = "running" /\ Crash /\ UNCHANGED tvars
+
 StepPend == pend /\ Crash /\ pend' = FALSE /\ l' = l + 1 /\ UNCHANGED <<tid, acc>>
 
 Silent ==
@@ -73,7 +77,7 @@ Finish ==
   /\ Match(EndObs(T))
   /\ acc' = TRUE /\ UNCHANGED <<vars, tid, l, pend>>
 
-TNext == StepEvent \/ StepPend \/ Silent \/ Finish
+TNext == StepEvent \/ StepPend \/ StepDied \/ Silent \/ Finish
 TSpec == TInit /\ [][TNext]_allvars
 
 Report == acc => PrintT(ToJson(<<"acc", tid>>))
